@@ -23,12 +23,12 @@ def seg(src_lines, node):
     return off(node.lineno, node.col_offset), off(node.end_lineno, node.end_col_offset)
 
 
-def mutants_of(path):
+def mutants_of(path, base=REPO):
     src = open(path).read()
     lines = src.splitlines(True)
     tree = ast.parse(src)
     out = []
-    rel = os.path.relpath(path, REPO)
+    rel = os.path.relpath(path, base)
 
     def add(kind, a, b, new, line):
         out.append({"file": rel, "line": line, "kind": kind, "start": a, "end": b, "before": src[a:b][:80], "after": new[:80], "new": new})
@@ -68,13 +68,13 @@ def mutants_of(path):
     return src, out
 
 
-def all_mutants():
+def all_mutants(base=REPO):
     res = []
-    for root, _, files in os.walk(PKG):
+    for root, _, files in os.walk(os.path.join(base, "pypika_tortoise")):
         for f in sorted(files):
             if f.endswith(".py"):
                 p = os.path.join(root, f)
-                src, ms = mutants_of(p)
+                src, ms = mutants_of(p, base)
                 for m in ms:
                     res.append(m)
     return res
@@ -86,7 +86,7 @@ def sh(cmd, **kw):
 
 def evaluate(m, wdir):
     path = os.path.join(wdir, m["file"])
-    orig = open(os.path.join(REPO, m["file"])).read()
+    orig = open(os.path.join(wdir, m["file"] + ".orig")).read()  # the snapshot the offsets were computed from
     new = orig[:m["start"]] + m["new"] + orig[m["end"]:]
     try:
         ast.parse(new)
@@ -122,16 +122,20 @@ def main():
     n, seed = int(sys.argv[1]), int(sys.argv[2])
     workers = int(sys.argv[sys.argv.index("--workers") + 1]) if "--workers" in sys.argv else 3
     outp = sys.argv[sys.argv.index("--out") + 1] if "--out" in sys.argv else "/tmp/mutation_campaign.jsonl"
-    ms = all_mutants()
-    rnd = random.Random(seed)
-    rnd.shuffle(ms)
-    ms = ms[:n]
     base = tempfile.mkdtemp(prefix="mutc-")
     dirs = []
     for k in range(workers):
         d = os.path.join(base, "w%d" % k)
-        sh("rsync -a --exclude .git --exclude __pycache__ %s/ %s/" % (REPO, d))
+        sh("rsync -a --exclude .git --exclude __pycache__ %s/ %s/" % (REPO if k == 0 else dirs[0], d))
         dirs.append(d)
+    # everything below works on the snapshot in the scratch copies, so /repo may move on while the campaign runs
+    ms = all_mutants(dirs[0])
+    for d in dirs:
+        for rel in sorted({m["file"] for m in ms}):
+            shutil.copy(os.path.join(d, rel), os.path.join(d, rel + ".orig"))
+    rnd = random.Random(seed)
+    rnd.shuffle(ms)
+    ms = ms[:n]
     free = list(dirs)
 
     def job(m):
